@@ -104,7 +104,9 @@ def index_space(ctx, obs, rule='INDEX'):
     q2 = S + '_get_searchlight_neighbors'
     f2 = prog.func(q2)
     ar = [c for c in ast.walk(f2.node) if isinstance(c, ast.Call) and _leaf(c.func) == 'arange']
-    ok = len(ar) == 3 and [norm(c.args[0]) for c in ar] == ['mask_shape[0]', 'mask_shape[1]', 'mask_shape[2]']
+    inl2 = Inliner(ctx.dep.result(q2), None, ('mask', 'center', 'radius'))
+    dims = [ast.unparse(inl2.inline(c.args[0])).replace(' ', '') if c.args else '' for c in ar]
+    ok = len(ar) == 3 and dims == ['SRC0.shape[0]', 'SRC0.shape[1]', 'SRC0.shape[2]']
     obs.check(ok, rule, q2, 'candidate voxels are restricted to the volume (arange over each mask dimension)',
               f'{[norm(c) for c in ar]}', '', where(prog, f2, f2.node))
 
@@ -118,7 +120,9 @@ def siblings(ctx, obs, rule='SIB'):
     q = S + 'get_searchlight_RDMs'
     f = prog.func(q)
     r = ctx.dep.result(q)
-    split = [n for n in f.node.body if isinstance(n, ast.If) and 'n_centers' in norm(n.test)]
+    split = [n for n in f.node.body if isinstance(n, ast.If) and n.orelse
+             and any(isinstance(c, ast.Call) and _leaf(c.func) == 'calc_rdm' for s in n.body for c in ast.walk(s))
+             and any(isinstance(c, ast.Call) and _leaf(c.func) == 'calc_rdm' for s in n.orelse for c in ast.walk(s))]
     if not split:
         raise AnalysisError('get_searchlight_RDMs: chunking split not found')
     sp = split[0]
@@ -156,8 +160,10 @@ def siblings(ctx, obs, rule='SIB'):
         obs.check(facets['chunked'] == facets['unchunked'], rule, q, 'chunked and unchunked arms agree on labels and calc_rdm options',
                   'the two arms differ: results depend on whether more than 1000 centres are processed', '', where(prog, f, sp))
     # chunk result stored at the chunk's own indices
+    ctor0 = [c for c in ast.walk(f.node) if isinstance(c, ast.Call) and _leaf(c.func) == 'RDMs' and c.args and isinstance(c.args[0], ast.Name)]
+    out_name = ctor0[0].args[0].id if ctor0 else None
     st = [s for n in sp.body for s in ast.walk(n) if isinstance(s, ast.Assign) and isinstance(s.targets[0], ast.Subscript)
-          and norm(s.targets[0].value) == 'RDM']
+          and norm(s.targets[0].value) == out_name]
     ok = False
     for s in st:
         idx = s.targets[0].slice
@@ -232,5 +238,10 @@ def order(ctx, obs, rule='ORDER'):
     obs.check(not bad, rule, q, 'no reordering of the results (as_completed / sort / shuffle)', f'`{norm(bad[0])}`' if bad else '', '',
               where(prog, f, f.node))
     rets = [n for n in ast.walk(f.node) if isinstance(n, ast.Return)]
-    obs.check(all(isinstance(n.value, ast.Name) and n.value.id == 'results' for n in rets) and bool(rets), rule, q,
+    inl = Inliner(ctx.dep.result(q), None, tuple(a.arg for a in f.node.args.args))
+
+    def _is_parallel_result(v):
+        e = inl.inline(v) if v is not None else None
+        return isinstance(e, ast.Call) and isinstance(e.func, ast.Call) and _leaf(e.func.func) == 'Parallel'
+    obs.check(all(_is_parallel_result(n.value) for n in rets) and bool(rets), rule, q,
               'the list produced by Parallel is returned as is', f'{[norm(n) for n in rets]}', '', where(prog, f, f.node))
